@@ -1,6 +1,7 @@
 mod bcval;
 mod c11;
 mod c14;
+mod c15;
 mod checks;
 mod corpus;
 mod engine;
@@ -15,6 +16,8 @@ mod solver;
 mod subject;
 mod symcell;
 mod term;
+mod x86;
+mod x86env;
 
 use std::process::exit;
 
@@ -60,6 +63,17 @@ fn main() {
             let w = args.get(4).and_then(|s| s.parse().ok()).unwrap_or(8);
             let tier = std::env::var("VERIF_TIER").unwrap_or_else(|_| "quick".into());
             props::minimize(&args[2], &args[3], w, &tier);
+        }
+        "one11" => {
+            // symx one11 <program> [width]: run the C11 validator on one program verbosely
+            engine::install_panic_hook();
+            let w = args.get(3).and_then(|s| s.parse().ok()).unwrap_or(8);
+            let cfg = c11::Cfg { limits: engine::Limits::thorough(), ref_steps: 200_000, timeout_ms: 10_000, eof_forks: 2, job_cap: std::time::Duration::from_secs(60), levels: vec![0, 1, 2, 3] };
+            let out = c11::run_job(&args[2], w, &cfg);
+            println!("paths={} runs={} crossed={} truncated={} inconclusive={:?}", out.paths, out.validator_runs, out.cross_validated, out.truncated, out.inconclusive.iter().take(3).collect::<Vec<_>>());
+            for f in &out.findings {
+                println!("FINDING L{} [{}] at {} input={:?}: {}", f.level, f.setting, f.at, f.input, f.what);
+            }
         }
         "one" => {
             // symx one <PROPERTY> <program> [width] : run one job verbosely
